@@ -241,7 +241,17 @@ def check_eq_hash(ctx, led, v, rule="C07.eq"):
         "equal objects must have equal hashes: the hash must be computed from what == compares (version and defined metric "
         "values only); %s" % hash_why,
     )
-    ev_, st2, _ = om.call("__eq__", [Opaque("other")])
+    try:
+        ev_, st2, _ = om.call("__eq__", [Opaque("other")])
+    except AnalysisError as e:
+        # == does not have the shape key(self) == key(other) with an opaque other: the analysis on
+        # two constructed objects (below) and the foreign / reflexive cases decide
+        led.info(rule + ".key", "%s.__eq__" % om.clsname, om.module.where(cls.methods["__eq__"].node), "== is not of the shape key(self) == key(other) (%s): decided on pairs of objects" % e.message)
+        ev_ = None
+    if ev_ is None:
+        _eq_foreign_reflexive(ctx, led, om, cls, v, rule, key, where)
+        check_eq_pairs(ctx, led, v, rule + ".pair")
+        return
     ok = False
     detail = _brief(ev_)
     # expected: isinstance(other, OwnClass) and clean_vector() == other.clean_vector()
@@ -287,6 +297,10 @@ def check_eq_hash(ctx, led, v, rule="C07.eq"):
         om.module.where(cls.methods["__eq__"].node),
         "== must hold exactly for objects of the same version that define the same metric values (and agree with hash): %s" % detail,
     )
+    _eq_foreign_reflexive(ctx, led, om, cls, v, rule, key, where)
+
+
+def _eq_foreign_reflexive(ctx, led, om, cls, v, rule, key, where):
     for other, label in ((Const(None), "None"), (Const("text"), "str")):
         r, _, _ = om.call("__eq__", [other])
         led.check(
@@ -296,7 +310,11 @@ def check_eq_hash(ctx, led, v, rule="C07.eq"):
             om.module.where(cls.methods["__eq__"].node),
             "comparison with a %s must be False; found %s" % (label, _brief(r)),
         )
-    r, _, _ = om.call("__eq__", [om.self_ref])
+    try:
+        r, _, _ = om.call("__eq__", [om.self_ref])
+    except AnalysisError as e:
+        led.info(rule + ".reflexive", "%s.__eq__(self)" % om.clsname, om.module.where(cls.methods["__eq__"].node), "x == x not interpreted in general (%s): see the pair analysis" % e.message)
+        return
     led.check(
         isinstance(r, Const) and r.v is True,
         rule + ".reflexive",
@@ -311,6 +329,8 @@ def check_eq_hash(ctx, led, v, rule="C07.eq"):
 
         deps = deps_of(key)
         led.check("minor" in deps, rule + ".version", "CVSS3 key includes minor version", where, "3.0 and 3.1 objects with the same metrics compare equal")
+    # == itself, on two objects that differ in one metric
+    check_eq_pairs(ctx, led, v, rule + ".pair")
 
 
 def flatten_conj(t):
@@ -659,3 +679,103 @@ def check_rh_emit(ctx, led, v, rule="C12.emit"):
         where,
         "rh_vector() must be str(scores()[0]) + '/' + clean_vector() with default arguments; found %s" % what,
     )
+
+
+def check_eq_pairs(ctx, led, v, rule="C07.eq.pair"):
+    """== on two objects that differ in one metric only.  A second object is constructed in the
+    same abstract state with metric k a fresh symbol (everything else shared); `x == y` is
+    interpreted and must be, as a table over the two values of k, exactly "both give k the same
+    defined value (absent and Not Defined alike count as none)".  Decides implementations of ==
+    that do not have the shape `key(self) == key(other)` (pairwise zip over generated fields, early
+    exits); versions 2 and 3 (the v4 scoring summaries are keyed on the first object's slots)."""
+    from .interp import Dead
+    from .objmodel import metric_slot
+    from .terms import ABSENT, Fin
+
+    if v == 4:
+        return 0
+    om = get_model(ctx, v)
+    cls = om.cls
+    if "__eq__" not in cls.methods:
+        return 0
+    f = cls.methods["__eq__"]
+    where = om.module.where(f.node)
+    spec = ctx.vspec(v)
+    nd = spec["nd"]
+    n = 0
+    bad = None
+    undecided = None
+    optional = [x for x in om.accepted if x not in spec["mandatory"]]
+    work = [(k, None, "") for k in om.accepted]
+    general = True
+    i_ = 0
+    while i_ < len(work):
+        k, pins, label = work[i_]
+        i_ += 1
+        second = om.second_instance(k, pins)
+        if second is None:
+            continue
+        st, ref = second
+        om.ev.join_eq = True
+        try:
+            r = om.ev.run_method(st, om.self_ref, f, [ref])
+        except Dead:
+            bad = bad or (k, "x == y raises for objects that differ in %s only" % k)
+            continue
+        except AnalysisError as e:
+            if general:
+                # == walks the two objects element by element: too many optional fields to align in
+                # general.  Decide it with the other optional metrics all omitted, and all defined.
+                general = False
+                del work[:]
+                i_ = 0
+                for k2 in om.accepted:
+                    for lab, pick in (("others omitted", lambda dom: (ABSENT,)), ("others defined", lambda dom: tuple([x for x in dom if x is not ABSENT and x != nd][:1]))):
+                        pins2 = dict((metric_slot(o_), pick(om.space.dom[metric_slot(o_)])) for o_ in optional if o_ != k2)
+                        work.append((k2, pins2, lab))
+                continue
+            undecided = undecided or "== could not be interpreted on two objects (%s)" % e.message
+            break
+        finally:
+            om.ev.join_eq = False
+        s1, s2 = metric_slot(k), "o:" + k
+        fo = st.folder()
+        t = om.ev.truth(st, r, None) if not isinstance(r, (Const, Fin)) else r
+        if isinstance(t, T.BoolOp):
+            t = om.ev.try_fold_bool(st, t)
+        if isinstance(t, Fin):
+            t = fo.restrict(t)
+        if isinstance(t, Const):
+            table = None
+            const = bool(t.v)
+        elif isinstance(t, Fin) and set(t.slots) <= {s1, s2}:
+            table, const = t, None
+        else:
+            undecided = undecided or "x == y for objects that differ in %s depends on more than the two values of %s: %s" % (k, k, _brief(t))
+            continue
+
+        def dv(x):
+            return None if (x is ABSENT or x == nd) else x
+
+        for a in fo.domain(s1):
+            for b in fo.domain(s2):
+                n += 1
+                want = dv(a) == dv(b)
+                if table is None:
+                    got = const
+                else:
+                    key = tuple(a if s_ == s1 else b for s_ in table.slots)
+                    if key not in table.table:
+                        continue
+                    got = bool(table.table[key])
+                if got != want and bad is None:
+                    sa_ = "no %s" % k if a is ABSENT else "%s:%s" % (k, a)
+                    sb_ = "no %s" % k if b is ABSENT else "%s:%s" % (k, b)
+                    bad = (k, "two objects that agree on every other metric, one with %s and one with %s, compare %s" % (sa_, sb_, "equal" if got else "unequal"))
+    if bad:
+        led.violation(rule, "%s.__eq__ [%s]" % (om.clsname, bad[0]), where, "== must hold exactly for objects that define the same metric values: %s" % bad[1])
+    elif undecided:
+        led.undecided(rule, undecided)
+    else:
+        led.ok(rule, "%s.__eq__" % om.clsname, where, "%d value pairs over %d metrics: equal exactly when both objects give the metric the same defined value" % (n, len(om.accepted)))
+    return n
